@@ -736,12 +736,20 @@ impl<'a> Compiler<'a> {
                         *next_var = VariableId(id.0 + 1);
                         id
                     });
-                self.program
+                let id = *id;
+                let name = self
+                    .program
                     .variables
                     .names
                     .entry(Handle::from_u32(id.0))
                     .or_insert_with(move || variable.to_string());
-                write_to_vec(*id, &mut self.program.bytecode);
+                if name != variable {
+                    // another variable has the same 32 bit hash: they would share one slot
+                    return Err(self.error(CompilationErrorPayload::BadVariableName(
+                        variable.to_string(),
+                    )));
+                }
+                write_to_vec(id, &mut self.program.bytecode);
             }
             CardBody::IfElse(children) => {
                 let [condition, then_card, else_card] = &**children;
@@ -1020,11 +1028,18 @@ impl<'a> Compiler<'a> {
                         *next_var = VariableId(id.0 + 1);
                         id
                     });
-                self.program
+                let name = self
+                    .program
                     .variables
                     .names
                     .entry(Handle::from_u32(id.0))
                     .or_insert_with(|| variable.to_string());
+                if name != variable {
+                    // another variable has the same 32 bit hash: they would share one slot
+                    return Err(self.error(CompilationErrorPayload::BadVariableName(
+                        variable.to_string(),
+                    )));
+                }
                 self.push_instruction(Instruction::ReadGlobalVar);
                 write_to_vec(id, &mut self.program.bytecode);
             }
